@@ -55,6 +55,7 @@ func (x *Exec) world(task string, op Op) {
 		if m == 0 {
 			m = 0o600
 		}
+		m &= 0o7777 // (bit 0o100000 marks an explicit mode, e.g. chmod 0)
 		err = unix.Chmod(op.P, uint32(m))
 	case OpUnlink:
 		err = unix.Unlink(op.P)
